@@ -29,6 +29,13 @@ Sub-checks (names usable with --only):
               long monotone permutation, also obtained along other routes; mesh-type patterns
               over them; adjacency sets with values >= 8 / >= 32 in several input forms; all
               pair laws, sorted()/min()/max() against (length, entries), Basis canonical form
+  derived     E2 BFS (depth 3, thorough 4) from 9 start objects over {use-ops that may create
+              hidden state: hash, ==, order, sorted, set/dict, all_syms, containment queries,
+              repr} + {every method that returns a new pattern: shade, add_point, add_increase,
+              add_decrease, sub_mesh_pattern, rotate, reverse, complement, inverse, flips,
+              get_perm; for permutations also remove, insert, direct/skew sum}; after every
+              operation every live object is compared with the same value rebuilt through the
+              constructor (==, hash, lookups both ways, order against every live object)
   fresh       FRESH: objects are built from mutable containers (shading list/set/dict, entry
               list, adjacency lists/sets) which are edited afterwards, and the mutable containers
               an object hands out (get_adjacent_requirements lists, sorted(shading), list(basis),
@@ -1752,6 +1759,274 @@ def shard_abort(shard):
 
 
 # --------------------------------------------------------------------------------------------
+# E2: derived objects - an object obtained from another one must behave like a fresh one
+# --------------------------------------------------------------------------------------------
+
+DERIVED_STARTS = [
+    [["mesh", [0, 1], [[1, 1]]], "plain"],
+    [["biv", [0, 1], [1], [1]], "plain"],
+    [["vinc", [1, 0], [1]], "plain"],
+    [["mesh", [0], [[0, 1], [1, 0]]], "plain"],
+    [["mesh", [], [[0, 0]]], "plain"],
+    [["mesh", [0, 2, 1], []], "plain"],
+    [["covinc", [0], [0]], "plain"],
+    [["perm", [1, 0, 2]], "plain"],
+    [["perm", []], "plain"],
+]
+DERIVED_MAXLIVE = 3
+USE_OPS = ("hash", "eq", "order", "sorted", "set", "syms", "contains", "repr")
+MESH_DERIVE = ("shade-first", "shade-last", "shade-two", "add_point-first", "add_point-last",
+               "add_increase", "add_decrease", "submesh-all", "submesh-drop-first",
+               "submesh-empty", "rotate1", "rotate2", "rotate3", "rotate-1", "reverse",
+               "complement", "inverse", "flip_horizontal", "flip_vertical", "flip_diagonal",
+               "get_perm")
+PERM_DERIVE = ("reverse", "complement", "inverse", "rotate1", "rotate2", "flip_antidiagonal",
+               "remove-first", "insert-first", "direct_sum-0", "skew_sum-0", "get_perm")
+
+
+def _value_of(o):
+    L = lib()
+    if isinstance(o, L.Perm):
+        return ("P", tuple(o))
+    return ("M", tuple(o.pattern), frozenset(tuple(c) for c in o.shading))
+
+
+def _fresh_of(o):
+    """The same value rebuilt through the public constructor."""
+    L = lib()
+    if isinstance(o, L.Perm):
+        return L.Perm(tuple(int(v) for v in o))
+    return L.MeshPatt(L.Perm(tuple(int(v) for v in o.pattern)),
+                      sorted(tuple(c) for c in o.shading))
+
+
+def _hidden(o):
+    """Instance state beyond the constructor's fields that can be seen from outside."""
+    d = getattr(o, "__dict__", None) or {}
+    out = []
+    for k in sorted(d):
+        if k in ("pattern", "shading"):
+            continue
+        v = d[k]
+        try:
+            out.append((k, repr(v)[:200]))
+        except Exception:  # noqa
+            out.append((k, "?"))
+    return tuple(out)
+
+
+class DerivedModel:
+    """State: a list of live objects (the start object and objects derived from live ones).
+    ("use", kind, i)      exercise live object i (may create hidden state)
+    ("derive", kind, i)   call a method of live object i that returns a new pattern; it joins
+                          the live objects (at most DERIVED_MAXLIVE)
+    After every operation every live object is compared with the same value rebuilt through the
+    constructor: ==, hash, set/dict lookup both ways, order against itself and against every
+    other live object.  Canonical state: the values of the live objects + their visible hidden
+    state."""
+
+    def __init__(self, start, maxlive=DERIVED_MAXLIVE):
+        self.start = start
+        self.maxlive = maxlive
+        self.is_perm = start[0][0] == "perm"
+        self.derive_ops = PERM_DERIVE if self.is_perm else MESH_DERIVE
+        self.menu = [("use", u, i) for i in range(maxlive) for u in USE_OPS] + \
+            [("derive", d, i) for i in range(maxlive)
+             for d in sorted(set(MESH_DERIVE) | set(PERM_DERIVE))]
+
+    def enabled(self, canon, hist):
+        nlive = len(canon[0])
+        kinds = canon[2]
+        for op in self.menu:
+            if op[2] >= nlive:
+                continue
+            if op[0] == "derive":
+                if nlive >= self.maxlive:
+                    continue
+                ops = PERM_DERIVE if kinds[op[2]] == "P" else MESH_DERIVE
+                if op[1] not in ops:
+                    continue
+            yield op
+
+    def derive(self, o, kind):
+        """Returns the new object, or None when the operation is not defined for o."""
+        L = lib()
+        if isinstance(o, L.Perm):
+            n = len(o)
+            if kind == "reverse":
+                return o.reverse()
+            if kind == "complement":
+                return o.complement()
+            if kind == "inverse":
+                return o.inverse()
+            if kind == "rotate1":
+                return o.rotate()
+            if kind == "rotate2":
+                return o.rotate(2)
+            if kind == "flip_antidiagonal":
+                return o.flip_antidiagonal()
+            if kind == "remove-first":
+                return o.remove(0) if n else None
+            if kind == "insert-first":
+                return o.insert(0, 0)
+            if kind == "direct_sum-0":
+                return o.direct_sum(L.Perm((0,)))
+            if kind == "skew_sum-0":
+                return o.skew_sum(L.Perm((0,)))
+            if kind == "get_perm":
+                return o.get_perm()
+            return None
+        n = len(o)
+        if n > 3 and kind.startswith("add_"):
+            return None                     # keep the values small
+        free = [c for c in R.all_cells(n) if c not in o.shading]
+        if kind == "shade-first":
+            return o.shade(free[0]) if free else None
+        if kind == "shade-last":
+            return o.shade(free[-1]) if free else None
+        if kind == "shade-two":
+            return o.shade(free[0], free[-1]) if len(free) > 1 else None
+        if kind == "add_point-first":
+            return o.add_point(free[0]) if free else None
+        if kind == "add_point-last":
+            return o.add_point(free[-1]) if free else None
+        if kind == "add_increase":
+            return o.add_increase(free[0]) if (free and not o.shading) else None
+        if kind == "add_decrease":
+            return o.add_decrease(free[0]) if (free and not o.shading) else None
+        if kind == "submesh-all":
+            return o.sub_mesh_pattern(range(n))
+        if kind == "submesh-drop-first":
+            return o.sub_mesh_pattern(range(1, n)) if n else None
+        if kind == "submesh-empty":
+            return o.sub_mesh_pattern(())
+        if kind == "rotate1":
+            return o.rotate()
+        if kind == "rotate2":
+            return o.rotate(2)
+        if kind == "rotate3":
+            return o.rotate(3)
+        if kind == "rotate-1":
+            return o.rotate(-1)
+        if kind in ("reverse", "complement", "inverse", "flip_horizontal", "flip_vertical",
+                    "flip_diagonal", "get_perm"):
+            return getattr(o, kind)()
+        return None
+
+    def use(self, o, kind, live):
+        L = lib()
+        if kind == "hash":
+            hash(o)
+        elif kind == "eq":
+            o == _fresh_of(o)                       # noqa
+        elif kind == "order":
+            for q in live:
+                if isinstance(q, L.Perm) == isinstance(o, L.Perm):
+                    o < q                           # noqa
+                    o <= q                          # noqa
+        elif kind == "sorted":
+            sorted([_fresh_of(o), o, _fresh_of(o)])
+        elif kind == "set":
+            s = {o}
+            o in s                                  # noqa
+            {o: 1}[o]                               # noqa
+        elif kind == "syms":
+            o.all_syms()
+        elif kind == "contains":
+            if isinstance(o, L.Perm):
+                list(o.occurrences_in(L.Perm((2, 0, 3, 1, 4))))
+            else:
+                L.Perm((2, 0, 3, 1, 4)).contains(o)
+                o.contains(L.Perm((0,)))
+        elif kind == "repr":
+            repr(o)
+            str(o)
+
+    def compare_all(self, live, op):
+        """The differential oracle; returns a list of violations."""
+        L = lib()
+        out = []
+        fresh = [_fresh_of(o) for o in live]
+        for i, (o, f) in enumerate(zip(live, fresh)):
+            try:
+                d = {f: 1}
+                d2 = {o: 1}
+                facts = {"o==fresh": o == f, "fresh==o": f == o, "not o!=fresh": not (o != f),
+                         "hash equal": hash(o) == hash(f), "o in {fresh}": o in {f},
+                         "fresh in {o}": f in {o}, "{fresh:1}.get(o)": d.get(o) == 1,
+                         "{o:1}.get(fresh)": d2.get(f) == 1,
+                         "not o<fresh": not (o < f), "o<=fresh": o <= f,
+                         "not o>fresh": not (o > f), "o>=fresh": o >= f}
+                bad = sorted(k for k, v in facts.items() if v is not True)
+                if bad:
+                    out.append({"op": list(op), "live_object": i, "value": repr(f),
+                                "differs_from_a_fresh_equal_object_in": bad})
+                    continue
+                for j, (q, fq) in enumerate(zip(live, fresh)):
+                    if isinstance(q, L.Perm) != isinstance(o, L.Perm):
+                        continue
+                    a = (o < q, o <= q, o > q, o >= q, o == q)
+                    b = (f < fq, f <= fq, f > fq, f >= fq, f == fq)
+                    c = (o < fq, o <= fq, o > fq, o >= fq, o == fq)
+                    if a != b or c != b:
+                        out.append({"op": list(op), "live_objects": [i, j],
+                                    "values": [repr(f), repr(fq)],
+                                    "[<,<=,>,>=,==] live/live": a, "fresh/fresh": b,
+                                    "live/fresh": c})
+                        break
+            except Exception as exc:  # noqa
+                out.append({"op": list(op), "live_object": i, "exception": repr(exc)})
+        return out
+
+    def build(self, hist):
+        live = [build(self.start)]
+        viols = []
+        last = len(hist) - 1
+        for hi, op in enumerate(hist):
+            v = []
+            try:
+                o = live[op[2]]
+                if op[0] == "use":
+                    self.use(o, op[1], live)
+                else:
+                    new = self.derive(o, op[1])
+                    if new is not None:
+                        live.append(new)
+                if hi == last:
+                    v = self.compare_all(live, op)
+            except AssertionError:
+                pass                    # a documented precondition of the method: no new object
+            except Exception as exc:  # noqa
+                if hi == last:
+                    v = [{"op": list(op), "exception": repr(exc)}]
+            if hi == last:
+                viols = v
+        L = lib()
+        canon = (tuple(_value_of(o) for o in live), tuple(_hidden(o) for o in live),
+                 tuple("P" if isinstance(o, L.Perm) else "M" for o in live))
+        return canon, viols
+
+
+def shard_derived(shard):
+    si, depth, maxlive = shard
+    start = DERIVED_STARTS[si]
+    model = DerivedModel(start, maxlive)
+    part = Partial()
+
+    def on_violation(hist, v):
+        part.violation("derived", {"start": start, "maxlive": maxlive,
+                                   "history": [list(op) for op in hist]}, v)
+
+    st = bfs([()], model.menu, model.build, depth, on_violation, enabled=model.enabled)
+    part.add(st.transitions, st.transitions)
+    part.bump("derived_states", st.states)
+    part.bump("derived_transitions", st.transitions)
+    if st.sample_histories:
+        part.sample({"start": start, "history": st.sample_histories[-1]}, cap=1)
+    return part, (st.states, st.transitions)
+
+
+# --------------------------------------------------------------------------------------------
 # E2: allocation histories between hash computations
 # --------------------------------------------------------------------------------------------
 
@@ -2105,6 +2380,24 @@ def run(ctx, only=None):
         ctx.section("abort", operations=len(ops),
                     injection_points=ctx.counters.get("abort_points", 0),
                     evaluations=ctx.evals - e0)
+    derived_counts = (0, 0)
+    if want("derived"):
+        e0 = ctx.evals
+        depth, maxlive = (3, 3) if quick else (4, 4)
+        res = ctx.pmap(shard_derived, [(si, depth, maxlive)
+                                       for si in range(len(DERIVED_STARTS))])
+        derived_counts = (sum(r[0] for r in res), sum(r[1] for r in res))
+        ctx.bounds["derived"] = {"starts": DERIVED_STARTS, "depth": depth,
+                                 "live_objects": maxlive, "use_ops": list(USE_OPS),
+                                 "derive_ops_mesh": list(MESH_DERIVE),
+                                 "derive_ops_perm": list(PERM_DERIVE),
+                                 "canonical_state": "values of the live objects + their "
+                                                    "instance __dict__ beyond pattern/shading"}
+        ctx.states += derived_counts[0]
+        ctx.transitions += derived_counts[1]
+        ctx.traces += derived_counts[1]
+        ctx.section("derived", states=derived_counts[0], transitions=derived_counts[1],
+                    evaluations=ctx.evals - e0)
     if want("history"):
         # depth (operations) from the fresh state / after all three objects were hashed once
         depths = [(4, 3) if quick else (5, 4)] * len(CONFIGS)
@@ -2123,15 +2416,17 @@ def run(ctx, only=None):
             for op in model.enabled(None, warm_prefix):
                 shards.append((ci, warm_prefix + (op,), warm - 1))
         res = ctx.pmap(shard_history, shards)
-        ctx.states = sum(r[0] for r in res)
-        ctx.transitions = sum(r[1] for r in res) + len(shards)
-        ctx.traces = ctx.transitions
+        hs = sum(r[0] for r in res)
+        ht = sum(r[1] for r in res) + len(shards)
+        ctx.states += hs
+        ctx.transitions += ht
+        ctx.traces += ht
         ctx.bounds["history"] = {"configs": [c["name"] for c in CONFIGS],
                                  "menu": len(HashHistory(CONFIGS[0]).menu),
                                  "depth_from_fresh_per_config": [d[0] for d in depths],
                                  "depth_after_all_three_hashed_per_config": [d[1] for d in depths],
                                  "merging": "none (allocator state is not observable)"}
-        ctx.section("history", states=ctx.states, transitions=ctx.transitions)
+        ctx.section("history", states=hs, transitions=ht)
 
 
     import json
@@ -2195,6 +2490,14 @@ def replay(ctx, rec):
                 ctx.violation("perm_order", case, {"got": "differs"})
     elif sub == "build":
         try_build(ctx, case["entry"])
+    elif sub == "derived":
+        model = DerivedModel(case["start"], case.get("maxlive", DERIVED_MAXLIVE))
+        hist = tuple(tuple(op) for op in case["history"])
+        for i in range(1, len(hist) + 1):
+            _, viols = model.build(hist[:i])
+            if viols:
+                ctx.violation("derived", case, viols[0])
+                break
     elif sub == "fresh":
         v = (tuple(case["value"][0]), frozenset(tuple(c) for c in case["value"][1]))
         check_fresh_value(ctx, v)
